@@ -181,18 +181,19 @@ def _src_exprs(pv, e, depth=3):
 
 
 def renderers(P):
-    """the three renderers of CliOutput and, among them, those that print a JSON document to stdout (by name, else by role)"""
+    """the renderers of CliOutput (the three named ones plus any further method of CliOutput that takes the FileStore: a renderer
+    added for a new output format) and, among them, those that print a JSON document to stdout"""
     rs = {}
     for name in ("human_output", "json_output", "rdjson_output"):
         f = P.fn(OUT + "::" + name, required=False)
         if f is not None:
             rs[name] = f
+    meths = [g for g in P.fns.values() if _live(g) and (g.self_adt or "").endswith("::CliOutput") and g.kind == "AssocFn"
+             and any("FileStore" in t for t in g.sig_inputs)]
+    for g in meths:
+        rs.setdefault(g.name, g)
     if len(rs) < 3:
-        meths = [g for g in P.fns.values() if _live(g) and (g.self_adt or "").endswith("output::CliOutput") and g.kind == "AssocFn"
-                 and any("FileStore" in t for t in g.sig_inputs)]
-        if len(meths) != 3:
-            raise AnchorMissing("the three renderers of CliOutput (methods taking the FileStore) cannot be identified: %s" % sorted(g.path for g in meths))
-        rs = {g.name: g for g in meths}
+        raise AnchorMissing("the renderers of CliOutput (methods taking the FileStore) cannot be identified: %s" % sorted(g.path for g in rs.values()))
     jsonish = {n: g for n, g in rs.items() if any("JSONObjectWriter" in (call_name(x) or "") for x in inlined(P, g).walk() if x.get("k") in ("Call", "MethodCall"))}
     return rs, jsonish
 
@@ -380,32 +381,38 @@ def r18a(P, R):
 
 
 # --------------------------------------------------------------------------------------------------------------- R18-b
+def _mentions_format(node):
+    return any("OutputFormat::" in (norm(x.get("def") or x.get("ctor_of") or "") or "") for x in subnodes(node) if x.get("k") in ("Path", "PatExpr", "TupleStruct", "Struct"))
+
+
 def r18b(P, R):
+    """stdout belongs to the renderer of the selected output format: nothing outside the renderers prints, a JSON renderer prints its
+    one document, and a renderer that prints its own format (a new `--output-format`) is selected only by the format dispatch"""
     run_cli = P.fn(CLI + "run_cli")
     reach = P.reachable([run_cli])
     rs, jsonish = renderers(P)
+    rpaths = {g.path for g in rs.values()}
     expect = {g.path for g in jsonish.values()}
-    printers = {}
-    for p in sorted(reach):
-        f = P.fns[p]
-        for n in f.walk():
-            if n.get("k") == "Call" and (call_name(n) or "") == "std::io::stdio::_print":
-                printers.setdefault(p, []).append(n)
+
+    def prints(f):
+        return [n for n in f.walk() if n.get("k") == "Call" and (call_name(n) or "") == "std::io::stdio::_print"]
+    printers = {p: prints(P.fns[p]) for p in sorted(reach) if prints(P.fns[p])}
     R.count("functions_reachable_from_run_cli", len(reach))
     R.floor("R18-b", "JSON renderers of CliOutput", len(expect), 2)
-    # stdout writers that can be reached without passing through a JSON renderer
-    outside = P.reachable([run_cli], stop=expect)
+    # (1) stdout writers that can be reached without passing through a renderer: check/generate code, helpers of the pipeline
+    outside = P.reachable([run_cli], stop=rpaths)
     for p, ns in sorted(printers.items()):
-        if p in expect:
+        if p in rpaths:
             continue
         if p in outside:
-            R.violated("R18-b", "stdout:" + P.fns[p].path, "%s (reachable from run_cli) writes to stdout: in json/rdjson mode stdout is "
+            R.violated("R18-b", "stdout:" + P.fns[p].path, "%s (reachable from run_cli outside the renderers) writes to stdout: in json/rdjson mode stdout is "
                        "no longer one JSON document" % p, loc=P.fns[p].loc())
         else:
-            R.holds("R18-b", "stdout-helper:" + short(p), "prints only on behalf of the JSON renderers", loc=P.fns[p].loc())
+            R.holds("R18-b", "stdout-helper:" + short(p), "prints only on behalf of a renderer", loc=P.fns[p].loc())
+    # (2) the JSON renderers print their one buffer
     for name, g in sorted(jsonish.items()):
         gi = inlined(P, g)
-        ns = [n for n in gi.walk() if n.get("k") == "Call" and (call_name(n) or "") == "std::io::stdio::_print"]
+        ns = prints(gi)
         if not ns:
             R.violated("R18-b", "stdout:" + short(g.path), "%s no longer prints its buffer" % g.path, loc=g.loc())
             continue
@@ -417,23 +424,58 @@ def r18b(P, R):
             a |= pv.atoms(x)
         R.check("R18-b", "stdout-buffer:" + short(g.path), ("call", "alloc::string::String::new") in a or any(x[0] == "call" and "JSONObjectWriter" in x[1] for x in a),
                 "what is printed is the JSON writer's buffer", "%s prints something other than the JSON buffer" % g.path, loc=g.loc())
+    # (3) a renderer of another format that writes to stdout: correct iff it runs only when its own format was selected
+    for name, g in sorted(rs.items()):
+        if g.path in expect or not (prints(inlined(P, g)) or any(q in P.reachable([g]) for q in printers if q not in rpaths)):
+            continue
+        key = "stdout-own-format:" + short(g.path)
+        verdicts = []
+        for cp in [c for c in P.callers_of(g.path) if "::tests" not in c]:
+            f = P.fns[cp]
+            for i, (c, _) in enumerate(f.nodes()):
+                if c.get("k") in ("MethodCall", "Call") and call_name(c) == g.path:
+                    ctxs = enclosing_contexts(f, i)
+                    sel = [x for x in ctxs if (x[0] == "arm" and _mentions_format(x[2]["pat"])) or (x[0] in ("if-then", "if-else") and _mentions_format(x[1]["cond"]))]
+                    sib = []
+                    for x in sel:
+                        region = x[2]["body"] if x[0] == "arm" else (x[1]["then"] if x[0] == "if-then" else x[1]["else"])
+                        sib += [call_name(y) for y in subnodes(region) if y.get("k") in ("MethodCall", "Call") and call_name(y) in expect]
+                    if sib:
+                        verdicts.append(("violated", "%s runs it in the same branch as the JSON renderer %s" % (cp, sorted(set(map(short, sib))))))
+                    elif sel:
+                        verdicts.append(("holds", ""))
+                    elif not [x for x in ctxs if x[0] in ("arm", "if-then", "if-else")]:
+                        verdicts.append(("violated", "%s calls it whatever the output format is" % cp))
+                    else:
+                        verdicts.append(("undecided", "%s calls it under a condition this rule does not relate to OutputFormat" % cp))
+        bad = [m for v, m in verdicts if v == "violated"]
+        und = [m for v, m in verdicts if v == "undecided"]
+        if bad:
+            R.violated("R18-b", key, "%s writes to stdout and is not confined to its own output format: %s; in json/rdjson mode stdout is no longer one JSON document"
+                       % (g.path, "; ".join(bad)), loc=g.loc())
+        elif und or not verdicts:
+            R.undecided("R18-b", key, "; ".join(und) or "%s writes to stdout but no call of it was found" % g.path, loc=g.loc())
+        else:
+            R.holds("R18-b", key, "prints its own format and is selected only by the output-format dispatch", loc=g.loc())
     # direct stdout handles
     others = [f.path for f, c, n in P.ext_callers(lambda q: q in ("std::io::stdio::stdout", "std::io::stdio::Stdout::lock")) if f.path in reach]
     R.check("R18-b", "stdout:handles", not others, "no other stdout handle is taken on the CLI path", "stdout handle taken in %s" % others)
-    # the three renderers are selected by an exhaustive match over OutputFormat
+    # every output format is dispatched to a renderer by an exhaustive match over OutputFormat
+    fmt = [a for p_, a in P.adts.items() if p_.startswith(CLI) and p_.split("::")[-1] == "OutputFormat"]
+    all_variants = set(fmt[0].variant_names()) if len(fmt) == 1 else {"Human", "Json", "Rdjson"}
     ms = [m for f in P.fns.values() if f.path in reach and f.path.startswith(CLI) for m in matches_on(f, "OutputFormat")]
     ok = False
     for m in ms:
         v, catch = arm_variants(m)
-        if v == {"Human", "Json", "Rdjson"} and not catch:
+        if v == all_variants and not catch and all(any(call_name(y) in rpaths for y in subnodes(arm["body"]) if y.get("k") in ("MethodCall", "Call")) for arm in m["arms"]):
             ok = True
     unreached = sorted(g.path for g in rs.values() if g.path not in reach)
     if unreached:
         R.violated("R18-b", "renderer-dispatch", "renderer(s) %s are not reachable from run_cli: that output format is never produced" % unreached)
     elif ok:
-        R.holds("R18-b", "renderer-dispatch", "each output format has its renderer")
+        R.holds("R18-b", "renderer-dispatch", "each output format (%s) has its renderer" % ", ".join(sorted(all_variants)))
     else:
-        R.undecided("R18-b", "renderer-dispatch", "all three renderers are reachable from run_cli, but not through an exhaustive match over OutputFormat")
+        R.undecided("R18-b", "renderer-dispatch", "all renderers are reachable from run_cli, but not through an exhaustive match over OutputFormat")
 
 
 # --------------------------------------------------------------------------------------------------------------- R18-c
@@ -564,7 +606,7 @@ def gate(P, R, rule="R18-c"):
                 R.violated(rule, key, "a printer is called on a path where the context is not CliContext::SchemaResolved", loc=rg.loc())
             else:
                 R.undecided(rule, key, "a printer is called outside any destructuring of CliContext this rule recognises", loc=rg.loc())
-    R.floor(rule, "printer calls in run_generate", n, 5)
+    R.floor(rule, "printer calls in run_generate", n, 3)
 
 
 # --------------------------------------------------------------------------------------------------------------- R18-d
@@ -814,7 +856,8 @@ def r18g(P, R):
         joi = inlined(P, jo)
         gate_lits = {v for c in joi.walk() if c.get("k") == "Binary" and c.get("op") == "==" for v in str_lits_in(c)} | \
                     {c.get("v") for c in joi.walk() if c.get("k") == "PatExpr" and c.get("lk") == "str"} | \
-                    {v for c in joi.walk() if c.get("k") == "MethodCall" and c.get("method") in ("contains", "eq") for a in c["args"] for v in str_lits_in(a)}
+                    {v for c in joi.walk() if c.get("k") == "MethodCall" and (c.get("method") in ("contains", "eq") or ((call_name(c) or "") in P.fns and is_out(P.fns[call_name(c)].self_adt)))
+                     for a in c["args"] for v in str_lits_in(a)}
         if {"check", "generate"} <= gate_lits:
             R.holds("R18-g", "json-gates", "json_output gates its sections on the recorded stage names", loc=jo.loc())
         else:
@@ -841,6 +884,52 @@ def r18g(P, R):
     R.floor("R18-g", "with_pos sites in the operation checker", n, 30)
 
 
+SELECTING = {"count", "filter", "filter_map", "position", "rposition", "take_while", "skip_while", "take", "skip", "partition", "retain", "dedup"}
+
+
+def r18h(P, R):
+    """the file index written into every position and the lookup that resolves it agree: FileStore issues an index for a file
+    (add) and finds the file of an index (get) with the same notion of "how many files come before" — both plain lengths of the
+    same vectors, or both the same selective count"""
+    fs = [a for p_, a in P.adts.items() if p_.startswith(CLI) and p_.split("::")[-1] == "FileStore"]
+    if len(fs) != 1:
+        raise AnchorMissing("type FileStore of the CLI not found")
+    FS = fs[0].path
+    meths = [g for g in P.fns.values() if _live(g) and g.self_adt == FS and g.kind == "AssocFn" and g.sig_inputs]
+    writers = [g for g in meths if g.sig_inputs[0].startswith("&mut") and "usize" in (g.sig_output or "")
+               and any(c.get("k") == "MethodCall" and c["method"] in ("push", "insert", "extend") for c in g.walk())]
+    readers = [g for g in meths if not g.sig_inputs[0].startswith("&mut") and "usize" in g.sig_inputs[1:] and (g.sig_output or "").startswith("core::option::Option<")]
+    R.floor("R18-h", "index-issuing methods of FileStore", len(writers), 1)
+    R.floor("R18-h", "index-resolving methods of FileStore", len(readers), 1)
+    if not writers or not readers:
+        return
+
+    def notion(g):
+        pv = Prov(g)
+        exprs = [n["e"] for n in g.walk() if n.get("k") == "Ret" and "e" in n]
+        if g.body.get("k") == "BlockExpr" and g.body["b"].get("tail") is not None:
+            exprs.append(g.body["b"]["tail"])
+        exprs += [n["cond"] for n in g.walk() if n.get("k") == "If"]
+        a = set()
+        for e in exprs:
+            a |= pv.deep_atoms(e)
+        sel = {x[1].split("::")[-1] for x in a if x[0] == "call" and x[1] not in P.fns and x[1].split("::")[-1] in SELECTING}
+        via = sorted(short(x[1]) for x in a if x[0] == "call" and x[1] in P.fns and P.fns[x[1]].self_adt == FS and x[1] != g.path)
+        return sel, via
+    for w in writers:
+        ws, wvia = notion(w)
+        for r in readers:
+            rs_, rvia = notion(r)
+            key = "index-agreement:%s/%s" % (w.name, r.name)
+            if ws == rs_:
+                R.holds("R18-h", key, "indices are issued and resolved with the same size notion (%s)" % (sorted(ws) or "plain lengths"), loc=w.loc())
+            else:
+                R.violated("R18-h", key, "%s computes the index it issues with %s%s, while %s resolves an index with %s%s: whenever the selective count differs "
+                           "from the plain length, the index written into positions points at another file than the one it was issued for (diagnostics name the "
+                           "wrong file)" % (w.path, sorted(ws) or "plain lengths", (" (through %s)" % ", ".join(wvia)) if wvia else "", r.path,
+                                            sorted(rs_) or "plain lengths", (" (through %s)" % ", ".join(rvia)) if rvia else ""), loc=w.loc())
+
+
 def r18pc(P, R):
     from facts import Program
     SC = Program(harness.selfcheck_facts())
@@ -850,7 +939,7 @@ def r18pc(P, R):
     R.check("R18-pc", "control:fs-write", set(wr) == {"writes", "opens_without_truncate"}, "file-system-write control detected", "self-check: fs::write in the control crate is seen as %s" % wr)
 
 
-RULES = [("R18-pc", r18pc), ("R18-a", r18a), ("R18-b", r18b), ("R18-c", r18c), ("R18-c", gate), ("R18-d", r18d), ("R18-e", r18e), ("R18-f", r18f), ("R18-g", r18g)]
+RULES = [("R18-pc", r18pc), ("R18-a", r18a), ("R18-b", r18b), ("R18-c", r18c), ("R18-c", gate), ("R18-d", r18d), ("R18-e", r18e), ("R18-f", r18f), ("R18-g", r18g), ("R18-h", r18h)]
 EXPLANATION = (
     "Call-graph and control-context facts that hold on all executions: (R18-a) one process::exit site whose code is 0 exactly in "
     "the Ok arm, every diagnostic-recording site lies on a path that returns Err, check succeeds only under errors.is_empty(); "
